@@ -39,7 +39,7 @@ func (o *Obligation) smtText() string {
 	text := body.String()
 	var ax strings.Builder
 	if o.env != nil {
-		for _, a := range o.env.keyAxioms(text + strings.Join(o.decls.axioms, " ")) {
+		for _, a := range o.env.keyAxioms(text) {
 			fmt.Fprintf(&ax, "(assert %s)\n", a)
 		}
 	}
